@@ -79,6 +79,13 @@ CHECKS = {
   "round trip preserves them; yq(yq(x)) == yq(x). Held on the streams generated.",
   "N-version against yaml.v3's reader: a fault it shares in parse and print is invisible; attributes the bare library loses are counted, not asserted; generator/yaml.v3 disagreement = inconclusive.",
   "DESIGN.md §5 C05"),
+ "C06": ("exploration",
+  "independent-reader monitor: yq's JSON is scanned and token-walked by Go encoding/json (yq uses goccy/go-json) and compared with generator ground truth; own YAML and JSON writers vary the surface syntax; round trips through the real code",
+  "12 sub-workloads: YAML (own emitter: block/flow, all scalar styles and escapes, int/float spellings, anchors/aliases/merges, depth 200, non-string keys) -> -o=json at indent 0..8 with and without unwrapping "
+  "(validity, code-point exact strings, exact integers, floats by round trip, key order, layout); JSON -> YAML -> JSON and in-expression to_json/from_json; unrepresentable values (.inf/.nan anywhere) must give an error. "
+  "A third of the cases also go through the real binary. Held on the documents generated.",
+  "Every generated YAML text is first read by yaml.v3 inside the harness (disagreement = inconclusive); YAML 1.1-only spellings, complex keys, timestamps and binary scalars are not generated.",
+  "DESIGN.md §5 C06"),
  "C07": ("exploration",
   "metamorphic presentation monitor: `yq u` and `yq .` are both re-read with yaml.v3 and must agree on every node, comment and separator outside the target set T computed by the harness",
   "11 update kinds (scalar/subtree replace, delete, += on sequences and maps, |= arithmetic/string, key creation, multi-target, recursive selection) at generated locations of commented/styled documents; "
